@@ -309,23 +309,22 @@ impl Entry {
         let mut bytes = Vec::new();
         for c in &self.checksums {
             bytes.extend_from_slice(
-                format!(
-                    "{} ({}) = {}\n",
-                    c.digest,
-                    self.filename.display(),
-                    c.hash
-                )
-                .as_bytes(),
+                &[
+                    format!("{} (", c.digest).as_bytes(),
+                    self.filename.as_os_str().as_bytes(),
+                    format!(") = {}\n", c.hash).as_bytes(),
+                ]
+                .concat(),
             );
         }
         if let Some(size) = self.size {
             bytes.extend_from_slice(
-                format!(
-                    "Size ({}) = {} bytes\n",
-                    self.filename.display(),
-                    size
-                )
-                .as_bytes(),
+                &[
+                    b"Size (".as_slice(),
+                    self.filename.as_os_str().as_bytes(),
+                    format!(") = {} bytes\n", size).as_bytes(),
+                ]
+                .concat(),
             );
         }
         bytes
@@ -684,23 +683,22 @@ impl Distinfo {
         for q in self.distfiles.values() {
             for c in &q.checksums {
                 bytes.extend_from_slice(
-                    format!(
-                        "{} ({}) = {}\n",
-                        c.digest,
-                        q.filename.display(),
-                        c.hash
-                    )
-                    .as_bytes(),
+                    &[
+                        format!("{} (", c.digest).as_bytes(),
+                        q.filename.as_os_str().as_bytes(),
+                        format!(") = {}\n", c.hash).as_bytes(),
+                    ]
+                    .concat(),
                 );
             }
             if let Some(size) = q.size {
                 bytes.extend_from_slice(
-                    format!(
-                        "Size ({}) = {} bytes\n",
-                        q.filename.display(),
-                        size
-                    )
-                    .as_bytes(),
+                    &[
+                        b"Size (".as_slice(),
+                        q.filename.as_os_str().as_bytes(),
+                        format!(") = {} bytes\n", size).as_bytes(),
+                    ]
+                    .concat(),
                 );
             }
         }
@@ -708,13 +706,12 @@ impl Distinfo {
         for q in self.patchfiles.values() {
             for c in &q.checksums {
                 bytes.extend_from_slice(
-                    format!(
-                        "{} ({}) = {}\n",
-                        c.digest,
-                        q.filename.display(),
-                        c.hash
-                    )
-                    .as_bytes(),
+                    &[
+                        format!("{} (", c.digest).as_bytes(),
+                        q.filename.as_os_str().as_bytes(),
+                        format!(") = {}\n", c.hash).as_bytes(),
+                    ]
+                    .concat(),
                 );
             }
         }
